@@ -14,7 +14,7 @@ def prebuild():
 def jobs(tier, asan):
     js = []
     q = tier == "quick"
-    for shape in range(6):
+    for shape in range(8):
         for tbuf in ((2,) if q else (1, 2)):
             if asan:
                 b = 1 if q else 2
@@ -24,7 +24,14 @@ def jobs(tier, asan):
                     b = 1
                 if not q:
                     b = 3 if shape in (0, 2, 5) else 2
-            js.append({"scenario": "c17.ub", "cfg": {"shape": shape, "tbuf": tbuf}, "bound": b, "deadline": 100 if q else 900})
+            if q and shape == 6:
+                b = 1
+            cfg = {"shape": shape, "tbuf": tbuf}
+            if shape == 7:
+                # the other thread's remaining operations (log, remove_logger) never take the logger manager's lock, so the
+                # backend may be preempted inside a sink destructor while it walks the loggers under that lock
+                cfg["dtor_yield"] = 1
+            js.append({"scenario": "c17.ub", "cfg": cfg, "bound": b, "deadline": 100 if q else 900})
     return js
 
 
